@@ -161,7 +161,7 @@ def run_unit(unit, repo="/repo", extra_args=None, timeout=900):
         elif isinstance(o, list):
             for v in o:
                 walk(v)
-    walk(j.get("func-details", {}))
+    walk(j.get("times-ms", {}))
     errs = parse_errors(p.stderr, gen_lines, os.path.basename(out))
     r.wall_s = time.time() - t0
     if vr.get("encountered-vir-error") or any(e["code"] for e in errs) or (not vr and p.returncode != 0):
@@ -181,7 +181,8 @@ def run_unit(unit, repo="/repo", extra_args=None, timeout=900):
         return r
     for e in errs:
         if e["lines"]:
-            fn, impl = enclosing_fn(gen_lines, e["lines"][0])
+            # the trait-level ensures line comes first; the impl that failed it is the span further down the file
+            fn, impl = enclosing_fn(gen_lines, max(e["lines"]))
             e["fn"], e["impl"] = fn, impl
     r.failed = errs
     r.status = "violation"
